@@ -1,6 +1,10 @@
-(* C04 — each plugin sees the container exactly as the earlier plugins left it. *)
+(* C04 — each plugin sees the container exactly as the earlier plugins left it.
+   Only statements here; proofs are in Proofs/ResultProofs.v and Proofs/Combine*.v.  The predicates are
+   those evaluated by holds_C04 (Run/RunAdapt.v): obs_eqb, apply_all, adjs_of, res_obs_eqb, own_overlay,
+   some_dropped. *)
 From Coq Require Import String List Bool.
-From NRI Require Import Model.Types Model.Result Proofs.ResultProofs.
+From NRI Require Import Model.Types Model.Result Spec.Apply Spec.AbsLedger Run.RunAdapt Proofs.ResultProofs
+  Proofs.CombineWf Proofs.CombineProofs Proofs.CombineView Proofs.CombineUpdate Proofs.CombineHolds Proofs.CombineWitness.
 Import ListNotations.
 
 (* the first plugin sees exactly what the runtime submitted *)
@@ -8,3 +12,103 @@ Theorem C04_first_view :
   forall rq rp rps, exists rest, fst (run_request rq (rp :: rps)) = view_of (init_state rq) :: rest.
 Proof. exact first_view. Qed.
 Print Assumptions C04_first_view.
+
+(* creation requests: for every original container, every well-formed history (wf_create, Proofs/CombineWf.v)
+   and every position i at which a plugin was asked — including the plugin whose response then conflicts —
+   the container shown is observably the original with the adjustments of the plugins before i applied in
+   order.  Exactly the RCreate branch of holds_C04. *)
+Theorem C04_view_is_prefix_result :
+  forall c0 rps i v,
+    wf_create c0 rps = true ->
+    nth_error (fst (run_request (RCreate c0) rps)) i = Some v ->
+    exists x, v = ShownContainer x /\ obs_eqb x (apply_all c0 (firstn i (adjs_of rps))) = true.
+Proof. exact view_is_prefix_result. Qed.
+Print Assumptions C04_view_is_prefix_result.
+
+(* only the plugins before position i need to be well formed *)
+Theorem C04_view_is_prefix_result_sharp :
+  forall c0 rps i v,
+    wf_create c0 (firstn i rps) = true ->
+    nth_error (fst (run_request (RCreate c0) rps)) i = Some v ->
+    exists x, v = ShownContainer x /\ obs_eqb x (apply_all c0 (firstn i (adjs_of rps))) = true.
+Proof. exact view_is_prefix_result_sharp. Qed.
+Print Assumptions C04_view_is_prefix_result_sharp.
+
+(* the same under the weakest hypothesis the statement allows: W4 alone (args <> [""]) for the plugins before
+   position i — no condition on markers, names with '=' or repeated keys (C04_w4_necessary below: W4 cannot
+   be dropped) *)
+Theorem C04_view_is_prefix_result_w4 :
+  forall c0 rps i v,
+    wf_views (firstn i rps) = true ->
+    nth_error (fst (run_request (RCreate c0) rps)) i = Some v ->
+    exists x, v = ShownContainer x /\ obs_eqb x (apply_all c0 (firstn i (adjs_of rps))) = true.
+Proof. exact view_is_prefix_result_w4. Qed.
+Print Assumptions C04_view_is_prefix_result_w4.
+
+(* "what a plugin is shown always agrees with what the runtime would obtain by applying the result combined
+   so far": the reply accumulated before plugin i is the combined adjustment returned by the request
+   restricted to the first i plugins *)
+Theorem C04_view_agrees_with_reply :
+  forall c0 rps i v,
+    wf_create c0 rps = true ->
+    nth_error (fst (run_request (RCreate c0) rps)) i = Some v ->
+    exists x s, v = ShownContainer x /\ snd (run_request (RCreate c0) (firstn i rps)) = Ok s /\
+                obs_eqb x (apply_adj c0 (s_adjust s)) = true.
+Proof. exact view_agrees_with_reply. Qed.
+Print Assumptions C04_view_agrees_with_reply.
+
+(* non-vacuity: the history of C03_example; four plugins are asked, so four views are judged *)
+Example C04_example :
+  wf_create ex_c0 ex_rps = true /\ length (fst (run_request (RCreate ex_c0) ex_rps)) = 4.
+Proof. split; [exact ex_wf|exact ex_four_views]. Qed.
+
+(* update requests: the resources shown to plugin i are the runtime's requested resources overlaid with the
+   own-container updates of the plugins before i, provided no ignore-failure update of those plugins was
+   dropped (DESIGN.md I2; "dropped" as the abstract ledger of Spec/AbsLedger.v says).  Exactly the RUpdate
+   branch of holds_C04, position by position.  Nothing is assumed of the responses. *)
+Theorem C04_update_view :
+  forall id req rps i v,
+    some_dropped None (firstn i rps) = false ->
+    nth_error (fst (run_request (RUpdate id req) rps)) i = Some v ->
+    exists x, v = ShownResources x /\ res_obs_eqb x (own_overlay id req (firstn i rps)) = true.
+Proof. exact update_view. Qed.
+Print Assumptions C04_update_view.
+
+(* when the request succeeds and no ignore-failure update was dropped at all, this holds at every position *)
+Theorem C04_update_view_ok :
+  forall id req rps s,
+    snd (run_request (RUpdate id req) rps) = Ok s -> some_dropped None rps = false ->
+    forall i v, nth_error (fst (run_request (RUpdate id req) rps)) i = Some v ->
+      exists x, v = ShownResources x /\ res_obs_eqb x (own_overlay id req (firstn i rps)) = true.
+Proof. exact update_view_ok. Qed.
+Print Assumptions C04_update_view_ok.
+
+Example C04_update_example :
+  some_dropped None ex_ups = false /\ exists s, snd (run_request (RUpdate "c" ex_req) ex_ups) = Ok s.
+Proof. split; [exact ex_ups_not_dropped|exact ex_ups_succeeds]. Qed.
+
+(* theorem and run-time check coincide: the predicate holds_C04 of Run/RunAdapt.v, evaluated on a case whose
+   recorded views are the model's, is true for creation (under W4), update and stop requests alike *)
+Theorem C04_holds_on_model :
+  forall case : adapt_case,
+    ac_views case = fst (run_request (ac_req case) (ac_resps case)) ->
+    (forall c0, ac_req case = RCreate c0 -> wf_views (ac_resps case) = true) ->
+    holds_C04 case = true.
+Proof. exact holds_C04_on_model. Qed.
+Print Assumptions C04_holds_on_model.
+
+(* the hypotheses are necessary: W4 (args = [""] empties the command line shown to the next plugin), and, for
+   update requests, the per-prefix "nothing dropped" hypothesis (a later hard conflict hides the drop from
+   some_dropped of the whole history) *)
+Theorem C04_w4_necessary :
+  exists x, nth_error (fst (run_request (RCreate wit_c0) wit_args_w4)) 1 = Some (ShownContainer x) /\
+            obs_eqb x (apply_all wit_c0 (firstn 1 (adjs_of wit_args_w4))) = false.
+Proof. exact wit_args_w4_fails. Qed.
+Print Assumptions C04_w4_necessary.
+
+Theorem C04_update_dropped_necessary :
+  some_dropped None wit_ups = false /\ some_dropped None (firstn 2 wit_ups) = true /\
+  exists x, nth_error (fst (run_request (RUpdate "c" res_empty) wit_ups)) 2 = Some (ShownResources x) /\
+            res_obs_eqb x (own_overlay "c" res_empty (firstn 2 wit_ups)) = false.
+Proof. exact wit_update_dropped. Qed.
+Print Assumptions C04_update_dropped_necessary.
